@@ -447,10 +447,10 @@ def wipe_then_resave(ctx):
 
 
 def large_recordings(ctx):
-    """Recordings of 100 kB .. 17 MB (33 and 65 MB in the thorough tier): whatever the size, what lookup discovers after the save is
+    """Recordings of 100 kB .. 65 MB (33 and 129 MB more in the thorough tier): whatever the size, what lookup discovers after the save is
     completely fetchable and holds what was saved."""
     import random as _random
-    sizes = [100 * 1024, 5 * 2 ** 20, 9 * 2 ** 20 + 7, 17 * 2 ** 20] + ([] if ctx.quick else [33 * 2 ** 20 + 1, 65 * 2 ** 20])
+    sizes = [100 * 1024, 5 * 2 ** 20, 9 * 2 ** 20 + 7, 17 * 2 ** 20, 65 * 2 ** 20 + 3] + ([] if ctx.quick else [33 * 2 ** 20 + 1, 129 * 2 ** 20])
     for prefix in ('', 'big/p'):
         fake = FakeS3()
         with fake.installed():
